@@ -6,7 +6,8 @@ ID = "C11"
 LEAN_MODULE = "HexProps.C11"
 SCOPE = [("arith", 40, 60), ("manager.ha", 400, 50), ("manager.state", 150, 50), ("hexital.ha", 100, 40)]
 ORACLE_RULE = ("C11: random stream x optional timeframe/fill x append schedule (many starting from 0 or 1 candles) with the Heikin-Ashi type on the "
-               "real CandleManager vs an independent left fold of the four formulas over the independently resampled raw stream (with a lifespan: its tail); tag and clean_values checked")
+               "real CandleManager vs an independent left fold of the four formulas over the independently resampled raw stream (with a lifespan: its tail); tag and clean_values checked; and every manager of a Heikin-Ashi Hexital whose members name "
+               "several timeframes (possibly the Hexital's own) against the same fold")
 ASSUMPTIONS = ["TZ=UTC for this check", "HA values compared with relative tolerance 1e-9 in the oracle (bit-exact in the correspondence)"]
 PARTIAL = 'no-timeframe case proved for every schedule; with a collapsing timeframe / inside a Hexital: correspondence + search (with_timeframe_FULL)'
 _case = om.make_case(ID, tf="maybe", ha=True)
@@ -19,7 +20,8 @@ def oracle(ctx):
     n = (300 if ctx["tier"] == "quick" else 3000) * ctx["boost"]
     sz = {"size": 50 if ctx["tier"] == "quick" else 200}
     return cm.merge_results(cm.run_cases(_case, ctx["seed"], ID, n, sz), cm.run_cases(_case_fill, ctx["seed"], ID + "f", n // 4, sz),
-                            cm.run_cases(_case_life, ctx["seed"], ID + "l", n // 2, sz))
+                            cm.run_cases(_case_life, ctx["seed"], ID + "l", n // 2, sz),
+                            cm.run_cases(om.case_hexital_tfs, ctx["seed"], ID + "hx", n // 2, {**sz, "ha": True, "pid": ID}))
 
 
 replay = om.replay
